@@ -308,7 +308,7 @@ CHECKS = {
         units=[
             dict(run="TestConnCrossTalk", checks_quick=300, checks_thorough=2000, shards_quick=2, shards_thorough=8),
             dict(run="TestTransportCrossTalk", checks_quick=300, checks_thorough=2000, shards_quick=2, shards_thorough=8),
-            dict(run="TestConnHammer", checks_quick=6, checks_thorough=60, shards_quick=2, shards_thorough=8, timeout=2400),
+            dict(run="TestConnHammer", checks_quick=8, checks_thorough=60, shards_quick=3, shards_thorough=8, timeout=2400),
         ],
     ),
     "C17": dict(
